@@ -9,7 +9,7 @@ PROP = {
 "validator registration":"C09","schema() registration":"C09","settings.errors and":"C09","CacheAwareDict does not":"C09","uniqueItems check":"C03",
 "SetMethod leaks":"C03","pattern properties matching":"C03","ValidationError.errors crashes":"C03","bad_type crashes":"C03","coerce leaks":"C03,C14",
 "order of LiteralMethod":"C02","LiteralMethod catches":"C03","FloatMethod leaks":"C03","FloatMethod accepts booleans":"C01,C06","TupleMethod drops":"C02",
-"skip(serialization_default=True)":"C04","union fall_back_on_any":"C08","multipleOf check leaks":"C03",
+"skip(serialization_default=True)":"C04","union fall_back_on_any":"C08","multipleOf check leaks":"C03","ValidationError.errors is not JSON":"C03",
 }
 log = subprocess.run(["git","-C","/repo","log","--format=%h\t%s"],capture_output=True,text=True).stdout.splitlines()
 fixed = []
